@@ -69,9 +69,33 @@ theorem insert_inv (z : Zones) (e : Excl) (h : ZInv z) : ZInv (z.insert e) := by
   · exact h
   · exact insertGo_inv z.posm z.excl _ z.pos h
 
+/-- on a well-formed set the test for a range of no width changes nothing: such a set is empty when `pos ≥ posm` -/
+theorem remove_eq_core (z : Zones) (x xm : Int) (h : ZInv z) : z.remove x xm = z.removeCore x xm := by
+  unfold Zones.remove
+  by_cases hw : z.pos ≥ z.posm
+  · rw [if_pos hw]
+    have hnil : z.excl = [] := by
+      cases he : z.excl with
+      | nil => rfl
+      | cons i rest =>
+        unfold ZInv at h
+        rw [he] at h
+        obtain ⟨a, b, c, _⟩ := h
+        omega
+    have hcore : z.removeCore x xm = z := by
+      unfold Zones.removeCore
+      simp only
+      rw [if_pos (by omega)]
+    rw [hcore]
+    split
+    · cases z; simp only at hnil; subst hnil; rfl
+    · rfl
+  · rw [if_neg hw]
+
 /-- **zones_inv (remove)** -/
 theorem remove_inv (z : Zones) (x xm : Int) (h : ZInv z) : ZInv (z.remove x xm) := by
-  unfold Zones.remove
+  rw [remove_eq_core z x xm h]
+  unfold Zones.removeCore
   simp only
   split
   · exact h
@@ -83,7 +107,7 @@ theorem remove_inv (z : Zones) (x xm : Int) (h : ZInv z) : ZInv (z.remove x xm) 
 @[simp] theorem insert_bounds (z : Zones) (e : Excl) : (z.insert e).pos = z.pos ∧ (z.insert e).posm = z.posm := by
   unfold Zones.insert; simp only; split <;> simp
 @[simp] theorem remove_bounds (z : Zones) (a b : Int) : (z.remove a b).pos = z.pos ∧ (z.remove a b).posm = z.posm := by
-  unfold Zones.remove; simp only; split <;> simp
+  unfold Zones.remove Zones.removeCore; simp only; split <;> (try split) <;> simp
 
 /-- **zones_inv**: after ANY sequence of excludes and weighted inserts the set is sorted, disjoint and inside its bounds -/
 theorem zones_inv (sd : Bool) (xmin xmax : Int) (a0 : Rat) (h : xmin < xmax) (ops : List Op) :
@@ -217,7 +241,10 @@ theorem step_avoids (a b : Int) (z : Zones) (hz : ZInv z) (h : Avoids a b z.excl
   cases op with
   | exclude x xm =>
     have hz' := remove_inv z x xm hz
-    unfold Zones.step Zones.remove at *
+    rw [remove_eq_core z x xm hz] at hz'
+    show Avoids a b (z.remove x xm).excl
+    rw [remove_eq_core z x xm hz]
+    unfold Zones.removeCore at *
     simp only at *
     split
     · exact h
@@ -236,7 +263,8 @@ theorem step_avoids (a b : Int) (z : Zones) (hz : ZInv z) (h : Avoids a b z.excl
 
 theorem exclude_avoids (z : Zones) (hz : ZInv z) (a b : Int) (hab : a < b) (ha : z.pos ≤ a) (hb : b ≤ z.posm) :
     Avoids a b (z.remove a b).excl := by
-  unfold Zones.remove
+  rw [remove_eq_core z a b hz]
+  unfold Zones.removeCore
   simp only
   have e1 : max a z.pos = a := Int.max_eq_left ha
   have e2 : min b z.posm = b := Int.min_eq_left hb
@@ -374,14 +402,15 @@ theorem remove_avoids_any (z : Zones) (hz : ZInv z) (a b : Int) (hab : a < b) : 
   have hne := inv_nonempty z.posm z.excl z.pos hz
   by_cases hc : max a z.pos ≥ min b z.posm
   · -- nothing to remove: the interval lies outside the bounds
-    have e : z.remove a b = z := by unfold Zones.remove; simp only [hc, if_true]
+    have e : z.remove a b = z := by rw [remove_eq_core z a b hz]; unfold Zones.removeCore; simp only [hc, if_true]
     rw [e]
     intro i hi
     have h1 := hlo i hi; have h2 := hup i hi; have h3 := hne i hi
     omega
   · have hz' := remove_inv z a b hz
     have h0 : Avoids (max a z.pos) (min b z.posm) (z.remove a b).excl := by
-      unfold Zones.remove
+      rw [remove_eq_core z a b hz]
+      unfold Zones.removeCore
       simp only [hc, if_false]
       exact removeGo_avoids _ _ (by omega) z.posm z.excl z.pos hz
     have hlo' := inv_lower _ _ _ hz'
